@@ -1212,7 +1212,10 @@ def euler_from_matrix(matrix, axes="sxyz"):
         if sy > _EPS:
             ax = np.arctan2(M[i, j], M[i, k])
             ay = np.arctan2(sy, M[i, i])
-            az = np.arctan2(M[j, i], -M[k, i])
+            # the third angle relative to the first: stays consistent when
+            # rounding noise makes the first one arbitrary close to gimbal lock
+            sx, cx = np.sin(ax), np.cos(ax)
+            az = np.arctan2(cx * M[k, j] - sx * M[k, k], cx * M[j, j] - sx * M[j, k])
         else:
             ax = np.arctan2(-M[j, k], M[j, j])
             ay = np.arctan2(sy, M[i, i])
@@ -1222,7 +1225,10 @@ def euler_from_matrix(matrix, axes="sxyz"):
         if cy > _EPS:
             ax = np.arctan2(M[k, j], M[k, k])
             ay = np.arctan2(-M[k, i], cy)
-            az = np.arctan2(M[j, i], M[i, i])
+            # the third angle relative to the first: stays consistent when
+            # rounding noise makes the first one arbitrary close to gimbal lock
+            sx, cx = np.sin(ax), np.cos(ax)
+            az = np.arctan2(sx * M[i, k] - cx * M[i, j], cx * M[j, j] - sx * M[j, k])
         else:
             ax = np.arctan2(-M[j, k], M[j, j])
             ay = np.arctan2(-M[k, i], cy)
